@@ -498,7 +498,10 @@ func (p *parser) parseWorkflowCallEvent(pos *Pos, n *yaml.Node) *WorkflowCallEve
 					case "required":
 						input.Required = p.parseBool(attr.val)
 					case "default":
-						input.Default = p.parseString(attr.val, true)
+						// Null means that no default value is set
+						if !isNull(attr.val) {
+							input.Default = p.parseString(attr.val, true)
+						}
 					case "type":
 						switch attr.val.Value {
 						case "boolean":
